@@ -22,5 +22,12 @@ fn main() {
         Some(s) => s,
         None => { eprintln!("unknown workload {} (known: {:?})", workload, w::NAMES); std::process::exit(2); }
     };
+    let problems = chrono_verif_harness::proj::PROBLEMS.lock().unwrap().clone();
+    if !problems.is_empty() {
+        let mut tw = chrono_verif_harness::out::Tw::new(&ctx.out, "Trace_Calendar", 1000);
+        tw.roll();
+        for p in problems { tw.emit(p); }
+        tw.finish();
+    }
     println!("SUMMARY {}", summary);
 }
